@@ -403,9 +403,18 @@ def rod_state(rod, letter, seed):
 
 
 def force_fun(kind, seed, k=0):
+    """kinds ending in _list / _tuple: the same load handed over as a plain Python list / tuple (constant or returned by the callable)"""
+    form = None
+    for sfx in ("_list", "_tuple"):
+        if kind.endswith(sfx):
+            kind, form = kind[: -len(sfx)], sfx[1:]
     f0 = np.array([0.0, 0.0, -9.81]) if kind == "const_axis" else 2.0 * weyl(seed, 80 + k, 3)
+    conv = {None: (lambda v: v), "list": (lambda v: [float(x) for x in v]), "tuple": (lambda v: tuple(float(x) for x in v))}[form]
     if kind in ("const", "const_axis"):
-        return f0
+        return conv(f0)
+    a = 1.5 * weyl(seed, 84 + k, 3)
+    if form is not None:
+        return lambda t: conv(f0 + a * math.sin(1.7 * t))
     a = 1.5 * weyl(seed, 84 + k, 3)
     return lambda t: f0 + a * math.sin(1.7 * t)
 
